@@ -32,12 +32,13 @@ Hypothesis O0 : oinv own0 r0.
 
 (* evictions are stamped with the reservation of the start of the reconcile *)
 Definition evst (l : list effect) : Prop :=
-  forall x, In x l -> is_evict x = true -> est x = stamp_of r0 (epod e).
+  forall x, In x l -> is_evict x = true -> est x = stamp_of r0 (epod e) /\ eph x = puid_of (epod e).
 Definition DS (c : ctx) : Prop := oinv (own_after own0 (ce c)) (cr c) /\ evst (ce c).
 Definition DG (c : ctx) : Prop :=
   cr c = r0 /\ existsb created_ok (ce c) = false /\ existsb deleted_ok (ce c) = false /\ evst (ce c).
 
-Lemma evst_snoc l x : evst l -> (is_evict x = true -> est x = stamp_of r0 (epod e)) -> evst (l ++ [x]).
+Lemma evst_snoc l x : evst l ->
+  (is_evict x = true -> est x = stamp_of r0 (epod e) /\ eph x = puid_of (epod e)) -> evst (l ++ [x]).
 Proof.
   intros H Hx y I. apply in_app_or in I. destruct I as [I|[I|[]]]; [auto|subst; auto].
 Qed.
@@ -58,7 +59,7 @@ Proof. intros (R & C & D & E). split; [apply oinv_same; auto|exact E]. Qed.
 Ltac evs :=
   repeat first
     [ assumption
-    | apply evst_snoc; [| cbn; intros; first [discriminate | congruence] ] ].
+    | apply evst_snoc; [| cbn; intros; first [discriminate | split; congruence] ] ].
 
 Ltac rwex :=
   rewrite ?existsb_snoc; cbn [created_ok deleted_ok ek eok];
@@ -153,7 +154,8 @@ Proof. reflexivity. Qed.
 
 Lemma reconcile_own fx s f own : W s -> oinv own (sr s) ->
   oinv (own_after own (snd (reconcile fx s f))) (sr (fst (reconcile fx s f)))
-  /\ (forall x, In x (snd (reconcile fx s f)) -> is_evict x = true -> est x = stamp_of (sr s) (sp s)).
+  /\ (forall x, In x (snd (reconcile fx s f)) -> is_evict x = true ->
+      est x = stamp_of (sr s) (sp s) /\ eph x = puid_of (sp s)).
 Proof.
   intros HW O. destruct (reconcile_cases fx s f HW) as [E|(_ & E)]; rewrite E.
   - cbn. split; [|intros ? []]. unfold own_after. cbn. rewrite orb_false_r, andb_true_r. exact O.
@@ -161,7 +163,7 @@ Proof.
     set (e := mkREnv _ _ _ _). set (c := mkCtx _ _ _ _ _ _).
     assert (S : sat (DS e own (sr s)) (DS e own (sr s)) (do_migrate fx e c)).
     { apply D_do_migrate; [exact O|]. subst c. unfold DG, evst. cbn.
-      repeat split; auto. intros ? []. }
+      split; [reflexivity|]. split; [reflexivity|]. split; [reflexivity|]. intros ? []. }
     apply sat_ctx_of in S. destruct S as (S1 & S2). split; [exact S1|]. exact S2.
 Qed.
 
@@ -170,8 +172,8 @@ Lemma reconcile_unbound fx s f own : W s -> oinv own (sr s) -> direct (sj s) = f
   own = true -> unbound_evicts (snd (reconcile fx s f)).
 Proof.
   intros HW O D T x I Ev. left.
-  destruct (reconcile_own fx s f own HW O) as (_ & St). rewrite (St x I Ev).
-  destruct (reconcile_guard fx s f x HW D I Ev) as (Sec & _). rewrite (St x I Ev) in Sec.
+  destruct (reconcile_own fx s f own HW O) as (_ & St). destruct (St x I Ev) as (St1 & _). rewrite St1.
+  destruct (reconcile_guard fx s f x HW D I Ev) as (Sec & _). rewrite St1 in Sec.
   destruct (O T) as (r & R & (_ & G)). rewrite R in *.
   destruct Sec as (_ & _ & _ & _ & NB).
   unfold stamp_of in *. destruct (sp s) as [p|]; cbn in *.
@@ -217,3 +219,18 @@ Proof.
   intros HW O D T. destruct o; try (intros ? []).
   cbn [step]. apply (reconcile_unbound fx s faults own HW O D T).
 Qed.
+
+(* clause 12: the pod handed to the evictor is the pod the stamp was read from *)
+Lemma st_puid_stamp r p : st_puid (stamp_of r p) = puid_of p.
+Proof. unfold stamp_of. destruct p as [p|], r as [r|]; reflexivity. Qed.
+
+Lemma reconcile_target fx s f x : W s -> In x (snd (reconcile fx s f)) -> is_evict x = true ->
+  eph x = st_puid (est x).
+Proof.
+  intros HW I Ev.
+  destruct (reconcile_own fx s f false HW (fun T => False_ind _ (Bool.diff_false_true T))) as (_ & St).
+  destruct (St x I Ev) as (E1 & E2). rewrite E1, E2, st_puid_stamp. reflexivity.
+Qed.
+
+Lemma step_target fx s o x : W s -> In x (snd (step fx s o)) -> is_evict x = true -> eph x = st_puid (est x).
+Proof. intros HW. destruct o; try (intros []). cbn [step]. apply reconcile_target; auto. Qed.
